@@ -46,7 +46,13 @@ def names(rng, n):
 
 def gen(rng, index, tier):
     n = rng.randint(1, 7)
+    big = rng.random() < 0.02
     kind, els = names(rng, n)
+    if big:
+        # a few instances well above the usual sizes (code paths that depend on a size)
+        n = rng.randint(12, 25)
+        kind, els = rng.choice([("int", rng.sample(range(0, 60), n)), ("str", ["e%d" % i for i in range(n)]),
+                                ("mixed_intlike", [i if rng.random() < 0.5 else str(i) for i in rng.sample(range(0, 60), n)])])
     m = rng.randint(1, 5)
     td = rng.choice([0.0, 0.3, 0.6])
     raw = []
